@@ -33,7 +33,7 @@
    they do on a disk. *)
 From Coq Require Import List NArith Bool Arith.
 From Coq Require Import Lia.
-From Verif Require Import C08.Model C08.Proofs C08.Spans.
+From Verif Require Import C08.Model C08.Proofs C08.Spans C08.NameCheck.
 Import ListNotations.
 
 (* an engine built from a disk that holds configuration [d] in all the places
@@ -285,6 +285,53 @@ Section Statements.
     destruct (HA _ Ha) as [H|H]; [left|right]; split; exact H.
   Qed.
 
+  (* ---- nothing is written outside the directory its kind belongs to ----
+     Whatever the payload names its files (a name that climbs into a sibling
+     directory sharing the string prefix of its own included: its target
+     classifies as an outside path), an update that is accepted or cleanly
+     refused leaves every path outside the five configuration places as it
+     was, and the files of an accepted update all lie in the directory of
+     their own kind. *)
+  Theorem C08_nothing_is_written_outside_its_directory : forall hs hint rq d f r s',
+    digest_injective_on_contents_met rq d ->
+    run hs hint rq d f = (r, s') ->
+    r <> RollbackFailed ->
+    (forall p, covered p = false -> lookup p (dsk s') = lookup p d) /\
+    (r = Ok -> forall e a, In e (r_payload rq) -> dir_area (e_field e) = Some a -> fst (e_target e) = a).
+  Proof.
+    intros hs hint rq d f r s' Inj R Hr.
+    destruct r; [|split; [intros p C; exact (C08_disk_atomic _ _ _ _ _ _ Inj R p)|discriminate]|congruence].
+    assert (NE : names_escape (r_payload rq) = false).
+    { destruct (names_escape (r_payload rq)) eqn:E; [|reflexivity].
+      exfalso. exact (C08_escaping_name_is_never_applied _ _ _ _ _ _ _ Inj E R eq_refl). }
+    assert (EF : forall e, In e (r_payload rq) -> escapes e = false).
+    { intros e He. destruct (escapes e) eqn:E; [|reflexivity].
+      assert (X : names_escape (r_payload rq) = true) by (apply existsb_exists; exists e; auto).
+      congruence. }
+    split.
+    - intros p C. destruct (C08_engine_atomic _ _ _ _ _ _ _ Inj R) as (k & _ & _ & HO).
+      destruct (HO eq_refl) as (_ & Dq & _). rewrite Dq. unfold new_disk.
+      rewrite lookup_apply_list_other.
+      + rewrite lookup_base. destruct (r_handler rq); [reflexivity|rewrite C; reflexivity].
+      + intro Hin. apply in_map_iff in Hin as [y [Ey Hy]]. apply in_map_iff in Hy as [x [Ex Hx]].
+        apply plan_In in Hx as [e [He ->]]. cbn [fst] in Ex. subst y. cbn [fst] in Ey. rename Ey into Ex. pose proof (escapes_false_covered e (EF e He)) as Cv. rewrite Ex in Cv. congruence.
+    - intros _ e a He Da. specialize (EF e He). unfold escapes in EF. rewrite Da in EF.
+      apply negb_false_iff in EF. apply area_eqb_eq in EF. exact EF.
+  Qed.
+
+  (* A name check that overlooks some of the escaping names ([lax]: the check
+     in force does not see that these outside paths have left the directory;
+     for the test on strings, strings.HasPrefix(joined, root), these are the
+     siblings whose name starts with the directory's name) is the gateway on
+     every payload that names none of them: every theorem above carries over
+     to such payloads, and only to them
+     (C08_disk_atomic_with_name_check_on_strings_refuted below). *)
+  Theorem C08_lax_name_check_differs_only_on_overlooked_names : forall lax hs hint rq d f,
+    (forall e, In e (r_payload rq) -> escapes e = true -> lax (e_target e) = false) ->
+    Model.run_by B D digest D_eqb empty garbage under valid metrics_ok (seen_by lax) true true hs hint rq d f
+    = run hs hint rq d f.
+  Proof. intros lax hs hint rq d f H. apply run_by_agrees. exact H. Qed.
+
 End Statements.
 
 Print Assumptions C08_disk_atomic.
@@ -297,6 +344,8 @@ Print Assumptions C08_engine_atomic_distinct_targets.
 Print Assumptions C08_disk_atomic_holds_outside_failed_rollback.
 Print Assumptions C08_flows_as_before_holds_outside_failure_after_switch.
 Print Assumptions C08_in_flight_holds_outside_switch_between_phases.
+Print Assumptions C08_nothing_is_written_outside_its_directory.
+Print Assumptions C08_lax_name_check_differs_only_on_overlooked_names.
 
 (* ---------------------------------------------------------------- why the name check is needed
    (defect F-C08e, repaired by patches/C08/fix-F-C08e.patch).  For the code
@@ -337,6 +386,71 @@ Print Assumptions C08_disk_atomic_without_name_check_refuted.
 Example C08_refuting_request_is_refused_by_the_check :
   let '(r, s) := run N N (fun c => c) N.eqb 0%N 0%N flat (c_valid [8%N]) (fun _ => true) true true [] [] refuting_request [] NoFault in
   (result_code r, normalize (dsk s)) = (1%N, []).
+Proof. vm_compute. reflexivity. Qed.
+
+(* ---------------------------------------------------------------- the name check taken on strings
+   (seeded regression C08-11).  filePathInDirectory decides by filepath.Rel:
+   a name is accepted iff its cleaned join lies strictly below the directory,
+   element by element.  The same decision taken on the rendered strings
+   (joined <> root and HasPrefix(joined, root)) accepts a sibling of the
+   directory whose name starts with the directory's name. *)
+Theorem C08_name_check_accepts_iff_strictly_inside : forall dir name,
+  ~ In dotdot dir ->
+  (rel_check dir name = true <-> strictly_inside dir (join dir name)).
+Proof. exact rel_check_iff_strictly_inside. Qed.
+Print Assumptions C08_name_check_accepts_iff_strictly_inside.
+
+Theorem C08_name_check_on_strings_never_stricter : forall dir name,
+  ~ In dotdot dir -> rel_check dir name = true -> prefix_check dir name = true.
+Proof. exact prefix_check_never_stricter. Qed.
+Print Assumptions C08_name_check_on_strings_never_stricter.
+
+Theorem C08_name_check_on_strings_refuted : ~ prefix_check_full.
+Proof. exact prefix_check_full_refuted. Qed.
+Print Assumptions C08_name_check_on_strings_refuted.
+
+(* In the model: (AOutside, 1) is cfg/flows-disabled/x.yaml, the one path the
+   string test does not see leaving cfg/flows.  The gateway with that check:
+   full-strength disk atomicity does not hold (the update is refused at a later
+   step -- content 8 does not validate -- and the sibling file stays), and an
+   accepted update writes a flow file outside the flows directory. *)
+Definition sibling_only : path -> bool := fun p => path_eqb p (AOutside, 1%N).
+
+Definition C08_disk_atomic_with_name_check_on_strings : Prop :=
+  forall (valid metrics_ok : disk N -> bool) hs hint rq d f s',
+    run_by N N (fun c => c) N.eqb 0%N 0%N flat valid metrics_ok (seen_by sibling_only) true true hs hint rq d f = (Failed, s') ->
+    forall p, lookup p (dsk s') = lookup p d.
+
+Theorem C08_disk_atomic_with_name_check_on_strings_refuted : ~ C08_disk_atomic_with_name_check_on_strings.
+Proof.
+  intro H.
+  specialize (H (c_valid [8%N]) (fun _ => true) [] [] refuting_request [((AOutside, 1%N), 5%N)] NoFault).
+  remember (run_by N N (fun c => c) N.eqb 0%N 0%N flat (c_valid [8%N]) (fun _ => true) (seen_by sibling_only) true true
+                   [] [] refuting_request [((AOutside, 1%N), 5%N)] NoFault) as x eqn:E.
+  vm_compute in E. destruct x as [r s]. injection E as -> ->.
+  specialize (H _ eq_refl (AOutside, 1%N)). vm_compute in H. discriminate.
+Qed.
+Print Assumptions C08_disk_atomic_with_name_check_on_strings_refuted.
+
+(* the same request: refused by the gateway's check with the sibling file
+   untouched; with the string test and a payload that is otherwise fine the
+   update is accepted and the file lands outside the flows directory; a name
+   the string test does see (another outside path) is refused by both *)
+Example C08_sibling_name_under_both_checks :
+  let rq (ok : bool) (t : path) : request N := {| r_handler := HConfiguration; r_method_ok := true; r_body_ok := true;
+                    r_payload := [ {| e_field := FFlows; e_target := t; e_content := 7%N; e_decodable := true |};
+                                   {| e_field := FFlows; e_target := (AFlows, 1%N);
+                                      e_content := if ok then 9%N else 8%N; e_decodable := true |} ] |} in
+  let go (esc : entry N -> bool) (ok : bool) (t : path) :=
+    let '(r, s) := run_by N N (fun c => c) N.eqb 0%N 0%N flat (c_valid [8%N]) (fun _ => true) esc true true
+                          [] [] (rq ok t) [((AOutside, 1%N), 5%N)] NoFault in
+    (result_code r, lookup (AOutside, 1%N) (dsk s), lookup (AOutside, 2%N) (dsk s)) in
+  (go escapes false (AOutside, 1%N), go (seen_by sibling_only) false (AOutside, 1%N),
+   go escapes true (AOutside, 1%N), go (seen_by sibling_only) true (AOutside, 1%N),
+   go (seen_by sibling_only) true (AOutside, 2%N))
+  = ((1%N, Some 5%N, None), (1%N, Some 7%N, None),
+     (1%N, Some 5%N, None), (0%N, Some 7%N, None),
+     (1%N, Some 5%N, None)).
 Proof. vm_compute. reflexivity. Qed.
 
 (* ---------------------------------------------------------------- non-vacuity *)
